@@ -25,6 +25,14 @@ pub fn class_scalar(class: &str, rng: &mut StdRng) -> Scalar {
         "one" => Scalar::one(),
         "minus_one" => -Scalar::one(),
         "small" => Scalar::from(7u64),
+        // machine-word boundaries: entries a fast path could classify as "small"
+        "two63" => Scalar::from(1u64 << 63),
+        "two63p1" => Scalar::from((1u64 << 63) + 1),
+        "two64m1" => Scalar::from(u64::MAX),
+        "two64" => Scalar::from_raw([0, 1, 0, 0]),
+        "two128" => Scalar::from_raw([0, 0, 1, 0]),
+        "neg_small" => -Scalar::from(7u64),
+        "neg_two63" => -Scalar::from(1u64 << 63),
         _ => Scalar::random(&mut *rng),
     }
 }
@@ -75,6 +83,19 @@ fn message_classes(n: usize) -> Vec<Vec<&'static str>> {
         a[1] = "zero";
         v.push(a);
     }
+    // machine-word boundary entries (2^63 .. 2^64-1 do not fit an i64, 2^64 not a u64; q-7, q-2^63 are "small negatives")
+    for w in ["two63", "two64m1", "neg_small"] {
+        v.push(vec![w; n]);
+    }
+    let words = ["two63p1", "two64", "two128", "neg_two63", "two63", "two64m1", "neg_small"];
+    let mut a = vec!["random"; n];
+    for i in 0..n { if i % 2 == 0 { a[i] = words[(i / 2) % words.len()]; } }
+    v.push(a);
+    // the last entry solved so that x + SUM y_i m_i = 0 under the signing key (psig only: the honest signature
+    // then has sigma2 = identity and still verifies); elsewhere "kernel" is just a random entry
+    let mut k = vec!["random"; n];
+    k[n - 1] = "kernel";
+    v.push(k);
     v
 }
 
@@ -126,6 +147,46 @@ fn psig_n<const N: usize>(rng: &mut StdRng, thorough: bool, out: &mut Vec<Value>
     };
     let mcs = message_classes(N);
     let chs = chains(thorough);
+    // the secret scalars, read from the key pair's wire form (for the "kernel" message class)
+    let kt = Tree::of(&kp);
+    let skx = indep::sc(kt.bytes_at("sk.x").expect("sk.x")).unwrap();
+    let sky: Vec<Scalar> = (0..N).map(|i| indep::sc(kt.bytes_at(&format!("sk.ys.{}", i)).expect("sk.ys")).unwrap()).collect();
+    // key variants: ONE G2 field of the public key replaced by another valid element
+    let pkt = Tree::of(&pk);
+    let mut variants: Vec<(String, PublicKey<N>, Pk)> = vec![];
+    {
+        let mut fields = vec!["g2".to_string(), "x2".to_string()];
+        for i in 0..N { if i < 3 || i == N - 1 { fields.push(format!("y2s.{}", i)); } }
+        for f in fields {
+            let l = pkt.get(&f).unwrap_or_else(|| panic!("public key layout: {}", f)).clone();
+            let mut b = pkt.bytes.clone();
+            let new = G2Affine::from(G2Projective::from(indep::g2(&pkt.bytes[l.off..l.off + 96]).unwrap()) + G2Projective::generator()).to_compressed();
+            b[l.off..l.off + 96].copy_from_slice(&new);
+            let vpk: PublicKey<N> = bincode::deserialize(&b).expect("variant key decodes");
+            let vv = Pk::from_tree(&Tree { bytes: b, leaves: pkt.leaves.clone() }, "").unwrap();
+            variants.push((f, vpk, vv));
+        }
+    }
+    // verification HISTORY: genuine key, a variant, the genuine key again, the next variant, ... on one honest
+    // signature - every verdict must be the PS relation under the key actually passed
+    for mc in [&mcs[0], &mcs[2]] {
+        // (random and all-one messages: with a zero entry the corresponding Y~_i does not enter the relation)
+        let mut mv = [Scalar::zero(); N];
+        for i in 0..N { mv[i] = class_scalar(mc[i], rng); }
+        let msg = Message::<N>::new(mv);
+        let sig = msg.sign(&mut *rng, &kp);
+        let (s1, s2) = (sig.sigma1(), sig.sigma2());
+        let (wf, pe) = indep::ps_relation(&pkv, &mv, &s1, &s2);
+        let mut checks = vec![json!({"kind": "same", "verdict": sig.verify(&pk, &msg), "pairing_eq": pe})];
+        for round in 0..2 {
+            for (f, vpk, vv) in variants.iter() {
+                let (_, pev) = indep::ps_relation(vv, &mv, &s1, &s2);
+                checks.push(json!({"kind": "keyfield", "field": f, "round": round, "verdict": sig.verify(vpk, &msg), "pairing_eq": pev}));
+                checks.push(json!({"kind": "same", "after": f, "verdict": sig.verify(&pk, &msg), "pairing_eq": pe}));
+            }
+        }
+        out.push(json!({"ev": "psig", "N": N, "msg": mc, "ops": [], "s1_is_identity": !wf, "checks": checks, "history": "key variants"}));
+    }
     for (mi, mc) in mcs.iter().enumerate() {
         for (ci, ch) in chs.iter().enumerate() {
             // the chain semantics do not depend on N: all chains for N <= 3, a rotating sample for larger N
@@ -133,6 +194,11 @@ fn psig_n<const N: usize>(rng: &mut StdRng, thorough: bool, out: &mut Vec<Value>
             if !thorough && N == 3 && (mi + ci) % 2 != 0 { continue; }
             let mut mv = [Scalar::zero(); N];
             for i in 0..N { mv[i] = class_scalar(mc[i], rng); }
+            if mc[N - 1] == "kernel" {
+                let mut acc = skx;
+                for i in 0..N - 1 { acc += sky[i] * mv[i]; }
+                mv[N - 1] = -acc * Option::<Scalar>::from(sky[N - 1].invert()).unwrap();
+            }
             let msg = Message::<N>::new(mv);
             let res = catch_unwind(AssertUnwindSafe(|| {
                 let mut obj = SigObj::Plain(msg.sign(&mut seeded(ci as u64 * 31 + mi as u64, 9), &kp));
@@ -170,7 +236,16 @@ fn psig_n<const N: usize>(rng: &mut StdRng, thorough: bool, out: &mut Vec<Value>
             }));
             let (sig, ops) = match res {
                 Ok(x) => x,
-                Err(e) => { out.push(json!({"ev": "psig", "N": N, "error": panic_message(e)})); continue; }
+                Err(e) => {
+                    let msg = panic_message(e);
+                    if msg.contains("honest request verifies") {
+                        // the library refused the honest signature request of a blindsign step: a C08 / C11 observation
+                        out.push(json!({"ev": "request", "N": N, "msg": mc, "tamper": "none", "schnorr_holds": true, "out": "none", "in_chain": true}));
+                    } else {
+                        out.push(json!({"ev": "psig", "N": N, "error": msg}));
+                    }
+                    continue;
+                }
             };
             let (s1, s2) = (sig.sigma1(), sig.sigma2());
             let mut checks = vec![];
@@ -213,6 +288,7 @@ fn psig_n<const N: usize>(rng: &mut StdRng, thorough: bool, out: &mut Vec<Value>
         let bf = b.message_blinding_factor();
         let p = b.generate_proof_response(c);
         let tree = Tree::of(&p);
+        let mut smallorder_case: Option<(Vec<u8>, zkchannels_crypto::proofs::Challenge)> = None;
         let mut cases: Vec<(String, Vec<u8>, bool)> = vec![("none".into(), tree.bytes.clone(), false)];
         for l in tree.atoms() {
             let mut bts = tree.bytes.clone();
@@ -235,9 +311,68 @@ fn psig_n<const N: usize>(rng: &mut StdRng, thorough: bool, out: &mut Vec<Value>
         }
         cases.push(("challenge".into(), tree.bytes.clone(), true));
         cases.push(("other key".into(), tree.bytes.clone(), false));
-        for (tamper, bts, wrong_chal) in cases {
+        // two fields tampered so that their errors cancel IF the challenge does not move: T + d*g1 and zbf + d;
+        // C replaced with T solved for it (a request for a commitment with unknown opening).  These - and every
+        // single-atom tamper again - are also presented under the challenge RECOMPUTED from the received request.
+        let recomputed: Vec<(String, Vec<u8>, bool)> = {
+            let mut v = vec![];
+            let d = Scalar::from(5u64);
+            let mut bts = tree.bytes.clone();
+            let t = tree.get("commitment_proof.scalar_commitment").unwrap().clone();
+            let zb = tree.get("commitment_proof.blinding_factor_response_scalar").unwrap().clone();
+            let tt = G1Projective::from(indep::g1(&tree.bytes[t.off..t.off + 48]).unwrap()) + G1Projective::from(pkv.g1) * d;
+            bts[t.off..t.off + 48].copy_from_slice(&G1Affine::from(tt).to_compressed());
+            let z = indep::sc(&tree.bytes[zb.off..zb.off + 32]).unwrap() + d;
+            bts[zb.off..zb.off + 32].copy_from_slice(&z.to_bytes());
+            v.push(("T + d*g1 and zbf + d, challenge recomputed from the request".to_string(), bts, false));
+            for (name, b, _) in cases.iter().filter(|c| c.0 != "none" && c.0 != "challenge" && c.0 != "other key") {
+                v.push((format!("{}, challenge recomputed from the request", name), b.clone(), false));
+            }
+            v
+        };
+        let n_plain = cases.len();
+        cases.extend(recomputed);
+        // the commitment moved by the order-3 curve point (0, 2) outside G1, for a proof whose challenge is divisible
+        // by 3 (then [c]T vanishes from the Schnorr equation); refused by the decoder on a correct tree
+        {
+            let mut found = None;
+            for attempt in 0..40u64 {
+                let mut r3 = seeded(attempt, 777 + N as u64);
+                let b3 = SignatureRequestProofBuilder::<N>::generate_proof_commitments(&mut r3, Message::<N>::new(mv), &[None; N], &pk);
+                let t3 = Tree::of(&b3.clone().generate_proof_response(c));
+                // the challenge the verifier derives from the TAMPERED request
+                let l = t3.get("commitment_proof.commitment").unwrap().clone();
+                let mut small = [0u8; 48];
+                small[0] = 0x80;
+                let tors = match Option::<G1Affine>::from(G1Affine::from_compressed_unchecked(&small)) { Some(p) => p, None => break };
+                let cplus = G1Affine::from(G1Projective::from(indep::g1(&t3.bytes[l.off..l.off + 48]).unwrap()) + G1Projective::from(tors));
+                let enc = cplus.to_compressed();
+                // transcript of a request = commitment || scalar commitment: rebuild the challenge with the tampered C
+                let tl = t3.get("commitment_proof.scalar_commitment").unwrap().clone();
+                let mut bts0 = t3.bytes.clone();
+                bts0[l.off..l.off + 48].copy_from_slice(&enc);
+                let c3 = match bincode::deserialize::<zkchannels_crypto::proofs::SignatureRequestProof<N>>(&bts0) {
+                    Ok(p) => ChallengeBuilder::new().with(&p).finish(),      // what the verifier derives from the received request
+                    Err(_) => ChallengeBuilder::new().with_bytes(&enc).with_bytes(&t3.bytes[tl.off..tl.off + 48]).finish(),
+                };
+                let cb = c3.to_scalar().to_bytes();
+                let mut rem = 0u32;
+                for byte in cb.iter().rev() { rem = (rem * 256 + *byte as u32) % 3; }
+                if rem == 0 {
+                    let p3 = b3.generate_proof_response(c3);
+                    let mut bts = Tree::of(&p3).bytes;
+                    bts[l.off..l.off + 48].copy_from_slice(&enc);
+                    found = Some((bts, c3));
+                    break;
+                }
+            }
+            if let Some((bts, c3)) = found {
+                smallorder_case = Some((bts, c3));
+            }
+        }
+        for (idx, (tamper, bts, wrong_chal)) in cases.into_iter().enumerate() {
             let p2: zkchannels_crypto::proofs::SignatureRequestProof<N> = match bincode::deserialize(&bts) { Ok(p) => p, Err(_) => continue };
-            let ch = if wrong_chal { ChallengeBuilder::new().with(&p2).with_bytes(b"x").finish() } else { c };
+            let ch = if wrong_chal { ChallengeBuilder::new().with(&p2).with_bytes(b"x").finish() } else if idx >= n_plain { ChallengeBuilder::new().with(&p2).finish() } else { c };
             let vpk = if tamper == "other key" { other.public_key() } else { &pk };
             let vpkv = if tamper == "other key" { &opkv } else { &pkv };
             let cp = Cp::from_tree(&Tree { bytes: bts.clone(), leaves: tree.leaves.clone() }, "commitment_proof").unwrap();
@@ -264,6 +399,18 @@ fn psig_n<const N: usize>(rng: &mut StdRng, thorough: bool, out: &mut Vec<Value>
                 Ok(None) => ev["out"] = json!("none"),
                 Err(e) => ev["out"] = json!(format!("panic:{}", panic_message(e))),
             }
+            out.push(ev);
+        }
+        if let Some((bts, c3)) = smallorder_case {
+            let mut ev = json!({"ev": "request", "N": N, "msg": mc, "tamper": "commitment + order-3 point outside G1, challenge divisible by 3", "schnorr_holds": false});
+            ev["out"] = match bincode::deserialize::<zkchannels_crypto::proofs::SignatureRequestProof<N>>(&bts) {
+                Err(_) => json!("none"),      // refused by the decoder
+                Ok(p3) => match catch_unwind(AssertUnwindSafe(|| p3.verify_knowledge_of_opening(&pk, c3))) {
+                    Ok(Some(_)) => json!("some"),
+                    Ok(None) => json!("none"),
+                    Err(e) => json!(format!("panic:{}", panic_message(e))),
+                },
+            };
             out.push(ev);
         }
     }
@@ -330,12 +477,17 @@ fn pedersen_n<G: Grp, const N: usize>(rng: &mut StdRng, thorough: bool, out: &mu
             let mut a = vec!["random"; N]; a[0] = "zero"; cases.push((a.clone(), "random")); cases.push((a, "zero"));
             let mut b = vec!["zero"; N]; b[N - 1] = "one"; cases.push((b.clone(), "minus_one")); cases.push((b, "one"));
         }
+        for w in ["two63", "two63p1", "two64m1", "two64", "two128", "neg_small", "neg_two63"] {
+            cases.push((vec![w; N], "random"));
+            let mut a = vec!["random"; N]; a[N - 1] = w; cases.push((a, w));
+        }
         if pname == "explicit, g_1 = h" {
             // m = (1, 0, ..), r = q-1: the commitment is the identity element
             let mut a = vec!["zero"; N]; a[0] = "one"; cases.push((a, "minus_one"));
         }
         for (ci, (mc, rc)) in cases.iter().enumerate() {
             if !thorough && N > 3 && ci % 3 != 0 { continue; }
+            if !thorough && pname != "generated" && ci >= 20 && ci % 2 == 1 { continue; }
             let mut mv = [Scalar::zero(); N];
             for i in 0..N { mv[i] = class_scalar(mc[i], rng); }
             let r = class_scalar(rc, rng);
@@ -679,6 +831,27 @@ fn schnorr_n<const N: usize>(rng: &mut StdRng, thorough: bool, out: &mut Vec<Val
                         out.push(json!({"ev": "proof", "kind": "sp", "N": N, "case": case, "decoded": true, "verdict": q.verify_knowledge_of_signature(&pk, ch),
                                         "atoms": {"sigma1_not_identity": a, "schnorr": b_, "pairing": c_}}));
                     }
+                    // two errors that would cancel in a FOLDED check: the signature is on m + d*e_0, the commitment on m and
+                    // the response of slot 0 is moved by c*d - the Schnorr relation and the pairing relation are each false
+                    {
+                        let d = Scalar::from(3u64);
+                        let mut m2 = mv;
+                        m2[0] += d;
+                        let s2 = Message::<N>::new(m2).sign(rng, &kp);
+                        let b = SignatureProofBuilder::<N>::generate_proof_commitments(rng, Message::<N>::new(mv), s2, &link, &pk);
+                        let ch = ChallengeBuilder::new().with(&b).finish();
+                        let q = b.generate_proof_response(ch);
+                        let tq = Tree::of(&q);
+                        let mut bq = tq.bytes.clone();
+                        let zl = tq.get("commitment_proof.message_response_scalars.0").unwrap().clone();
+                        let z0 = indep::sc(&bq[zl.off..zl.off + 32]).unwrap() + ch.to_scalar() * d;
+                        bq[zl.off..zl.off + 32].copy_from_slice(&z0.to_bytes());
+                        let q2: zkchannels_crypto::proofs::SignatureProof<N> = bincode::deserialize(&bq).unwrap();
+                        let v2 = sp_root(&Tree { bytes: bq, leaves: tq.leaves.clone() }).unwrap();
+                        let (a, b_, c_) = v2.relations(&pkv, &ch.to_scalar());
+                        out.push(json!({"ev": "proof", "kind": "sp", "N": N, "case": "signature_on_shifted_message_response_shifted", "decoded": true,
+                                        "verdict": q2.verify_knowledge_of_signature(&pk, ch), "atoms": {"sigma1_not_identity": a, "schnorr": b_, "pairing": c_}}));
+                    }
                     // the all-identity blinded signature through chosen randomness: the draw after the blinding
                     // factor, its commitment scalar and one commitment scalar per unlinked slot is zero
                     let free = link.iter().filter(|x| x.is_none()).count();
@@ -696,6 +869,61 @@ fn schnorr_n<const N: usize>(rng: &mut StdRng, thorough: bool, out: &mut Vec<Val
                 }
             }
         }
+    }
+}
+
+/// honest proofs whose commitment is the identity element: message all zero and the blinding factor (the builder's
+/// first draw) zero.  They satisfy the Schnorr relation and must verify.
+fn identity_commitment_proofs<const N: usize>(rng: &mut StdRng, out: &mut Vec<Value>) {
+    let kp = KeyPair::<N>::new(rng);
+    let pk = kp.public_key().clone();
+    let pkv = Pk::from_tree(&Tree::of(&pk), "").unwrap();
+    let p1 = PedersenParameters::<G1Projective, N>::new(rng);
+    let p2 = PedersenParameters::<G2Projective, N>::new(rng);
+    let t1 = Tree::of(&p1);
+    let t2 = Tree::of(&p2);
+    let (h1, g1s): (G1Affine, Vec<G1Affine>) = (indep::g1(t1.bytes_at("h").unwrap()).unwrap(), (0..N).map(|i| indep::g1(t1.bytes_at(&format!("gs.{}", i)).unwrap()).unwrap()).collect());
+    let (h2, g2s): (G2Affine, Vec<G2Affine>) = (indep::g2(t2.bytes_at("h").unwrap()).unwrap(), (0..N).map(|i| indep::g2(t2.bytes_at(&format!("gs.{}", i)).unwrap()).unwrap()).collect());
+    let zero = Message::<N>::new([Scalar::zero(); N]);
+    let mc = vec!["zero"; N];
+    let script = || { let mut s = Scripted::new(vec![Draw::Zero], 11); s.scalar_only = true; s };
+    {
+        let b = CommitmentProofBuilder::<G1Projective, N>::generate_proof_commitments(&mut script(), Message::<N>::new([Scalar::zero(); N]), &[None; N], &p1);
+        let bf0 = b.message_blinding_factor().as_scalar() == Scalar::zero();
+        let cb = ChallengeBuilder::new().with(&b).with(&p1).finish();
+        let p = b.generate_proof_response(cb);
+        let cp = ChallengeBuilder::new().with(&p).with(&p1).finish();
+        let view = cp_root(&Tree::of(&p)).unwrap();
+        out.push(json!({"ev": "proof", "kind": "cp_g1", "N": N, "m": mc, "linked": [], "case": "honest", "identity_commitment": bf0, "decoded": true,
+                        "verdict": p.verify_knowledge_of_opening(&p1, cp), "builder_eq_proof": cb.to_scalar() == cp.to_scalar(),
+                        "atoms": {"schnorr": view.schnorr_g1(&h1, &g1s, &cp.to_scalar())}, "patterns": {"blinding_factor_drawn_as_zero": bf0}}));
+    }
+    {
+        let b = CommitmentProofBuilder::<G2Projective, N>::generate_proof_commitments(&mut script(), Message::<N>::new([Scalar::zero(); N]), &[None; N], &p2);
+        let bf0 = b.message_blinding_factor().as_scalar() == Scalar::zero();
+        let cb = ChallengeBuilder::new().with(&b).finish();
+        let p = b.generate_proof_response(cb);
+        let cp = ChallengeBuilder::new().with(&p).finish();
+        let view = cp_root(&Tree::of(&p)).unwrap();
+        out.push(json!({"ev": "proof", "kind": "cp_g2", "N": N, "m": mc, "linked": [], "case": "honest", "identity_commitment": bf0, "decoded": true,
+                        "verdict": p.verify_knowledge_of_opening(&p2, cp), "builder_eq_proof": cb.to_scalar() == cp.to_scalar(),
+                        "atoms": {"schnorr": view.schnorr_g2(&h2, &g2s, &cp.to_scalar())}, "patterns": {"blinding_factor_drawn_as_zero": bf0}}));
+    }
+    {
+        let b = SignatureRequestProofBuilder::<N>::generate_proof_commitments(&mut script(), Message::<N>::new([Scalar::zero(); N]), &[None; N], &pk);
+        let bf0 = b.message_blinding_factor().as_scalar() == Scalar::zero();
+        let cb = ChallengeBuilder::new().with(&b).finish();
+        let p = b.generate_proof_response(cb);
+        let cp = ChallengeBuilder::new().with(&p).finish();
+        let view = Cp::from_tree(&Tree::of(&p), "commitment_proof").unwrap();
+        let vb = p.verify_knowledge_of_opening(&pk, cp);
+        let vb_some = vb.is_some();
+        // and the blind signature on it unblinds (factor 0) to a valid signature on the zero message
+        let signs = vb.map(|v| v.blind_sign(&kp, rng).unblind(bf_of(&Scalar::zero())).verify(&pk, &zero)).unwrap_or(false);
+        out.push(json!({"ev": "proof", "kind": "srp", "N": N, "m": mc, "linked": [], "case": "honest", "identity_commitment": bf0, "decoded": true,
+                        "verdict": vb_some, "builder_eq_proof": cb.to_scalar() == cp.to_scalar(),
+                        "atoms": {"schnorr": view.schnorr_g1(&pkv.g1, &pkv.y1s, &cp.to_scalar())},
+                        "patterns": {"blinding_factor_drawn_as_zero": bf0, "blind_signature_on_it_verifies": signs}}));
     }
 }
 
@@ -783,6 +1011,7 @@ pub fn schnorr(seed: u64, thorough: bool) -> Vec<Value> {
                 let mut rng = seeded(seed, 630 + $n);
                 let mut out = vec![];
                 schnorr_n::<$n>(&mut rng, thorough, &mut out);
+                identity_commitment_proofs::<$n>(&mut rng, &mut out);
                 out
             })
         };
